@@ -7,7 +7,7 @@
     pre-tokeniser (regexp2) is the variable [split] with hypothesis [split_partition]. *)
 From Coq Require Import List NArith ZArith Bool.
 From V Require Import Common.Bytes Tok.Utf8 Tok.ByteMap Tok.ByteMapProofs Tok.Utf8Proofs Tok.Heap Tok.Vocab Tok.VocabProofs
-     Tok.Special Tok.SpecialProofs Tok.Bpe Tok.Spm Tok.MergeProofs Tok.BpeProofs Tok.SpmProofs Tok.LiteralProofs Tok.FuelProofs Tok.Pretok Tok.PretokProofs Tok.Witness.
+     Tok.Special Tok.SpecialProofs Tok.Bpe Tok.Spm Tok.MergeProofs Tok.BpeProofs Tok.SpmProofs Tok.LiteralProofs Tok.FuelProofs Tok.Pretok Tok.PretokProofs Tok.SizeCheck Tok.Witness.
 Import ListNotations.
 
 (** * the byte <-> rune map *)
@@ -86,6 +86,29 @@ Proof.
   destruct H as [_ _ Ht HV _]. split; [exact Ht|exact HV].
 Qed.
 Print Assumptions C20_spm_merge_preserves_text.
+
+(** the piece clause depends on the loop's stale-candidate test [len(left)+len(right) != pair.size]: for the same
+    loop WITHOUT it ([spm_cells_nosize], Tok/SizeCheck.v - not the model of the code) the clause is false.  Witness:
+    pieces U+2581 q (score -5) and qz (score -1), no U+2581 qz, text " qz": the stale pair (U+2581, q) is merged after q
+    absorbed z, the non-piece U+2581 qz goes through the byte fallback and decodes to a literal U+2581 *)
+Definition C20_spm_pieces_without_size_check : Prop := forall v rs,
+  Forall (fun c => cr c = [] \/ (exists r, cr c = [r]) \/ (0 <= venc v (of_runes (cr c)))%Z) (fst (spm_cells_nosize v rs)).
+
+Theorem C20_spm_pieces_without_size_check_refuted : ~ C20_spm_pieces_without_size_check.
+Proof.
+  intros H. specialize (H sz_vocab sz_runes).
+  destruct sz_without_check as [Hc [Hv _]].
+  destruct (fst (spm_cells_nosize sz_vocab sz_runes)) as [|c0 rest]; [discriminate|].
+  cbn [map] in Hc. injection Hc as Hc0 _. inversion H as [|? ? H0 _]; subst.
+  rewrite Hc0 in H0. destruct H0 as [H0|[[r H0]|H0]]; [discriminate|discriminate|].
+  rewrite Hv in H0. apply H0. reflexivity.
+Qed.
+Print Assumptions C20_spm_pieces_without_size_check_refuted.
+
+Example C20_spm_size_check_witness :
+  map cr (fst (spm_cells sz_vocab sz_runes)) = [[9601]; [113; 122]; []]%N /\
+  spm_decode sz_vocab (spm_cell_ids sz_vocab (fst (spm_cells_nosize sz_vocab sz_runes))) = DOk (sep ++ [113; 122]%N).
+Proof. split; [exact sz_with_check|exact (proj2 (proj2 sz_without_check))]. Qed.
 
 (** the fuel of the model's loops is never exhausted: they stop because the heap is empty, as the code's do *)
 Theorem C20_merge_loops_terminate : forall v rs, snd (bpe_cells v rs) = [] /\ snd (spm_cells v rs) = [].
